@@ -156,6 +156,13 @@ func runC06(c *Ctx) {
 				lf.syncFaultOnly = true
 			}
 		}
+		if c.F.Chance(6) {
+			// a slow device (a loaded disk, a network mount): every call into it
+			// takes 0.3-5 s of the run's clock. Nothing fails; control may be lost
+			// only after the line is where it belongs, however long that takes
+			lf.sink.Delay = pick(c.F, 300*time.Millisecond, 1200*time.Millisecond, 5*time.Second) + time.Duration(i)*7*time.Millisecond
+			c.Fault("slow-device")
+		}
 		w.leaves = append(w.leaves, lf)
 		return zapcore.NewCore(zapcore.NewJSONEncoder(encCfg()), ws, lf.level)
 	}
